@@ -993,7 +993,15 @@ namespace Inst
 def aName : AttrD := { name := "name", ty := .one .string, optional := false }
 def aNxt : AttrD := { name := "nxt", ty := .one (.entity "ND"), optional := true }
 def eND : EntityD := { name := "ND", attrs := [aName, aNxt], ancestors := ["ND"] }
-def d : Dict := { entities := [eND], selects := [], complexSets := [] }
+def aLbl : AttrD := { name := "lbl", ty := .one .string, optional := false }
+def aItems : AttrD := { name := "items", ty := .aggr (.entity "ND"), optional := false }
+def eGRP : EntityD := { name := "GRP", attrs := [aLbl, aItems], ancestors := ["GRP"] }
+def d : Dict := { entities := [eND, eGRP], selects := [], complexSets := [] }
+def el1 : ElemG Nat := { tok := [35, 49], before := [], after := [], v := .atom (.ref ((StepModel.digitsVal [49] 0 : Nat) : Int)) }
+def el2 : ElemG Nat := { tok := [35, 50], before := [32], after := [], v := .atom (.ref ((StepModel.digitsVal [50] 0 : Nat) : Int)) }
+def pLbl : Param Nat := { a := aLbl, v := .one (.atom (.str [39, 103, 39])), tok := [39, 103, 39], before := [], after := [] }
+def pItems : Param Nat := { a := aItems, v := .aggr ([el1, el2].map (·.v)), tok := aggrTextG [el1, el2] [], before := [], after := [] }
+def rec3 : Rec Nat := { ds := [51], s1 := [], s2 := [], n0 := 71, ns := [82, 80], s3 := [], ps := [pLbl, pItems], s4 := [] }
 def pStr (c : Nat) : Param Nat := { a := aName, v := .one (.atom (.str [39, c, 39])), tok := [39, c, 39], before := [], after := [] }
 def pNull : Param Nat := { a := aNxt, v := nullOf aNxt, tok := [36], before := [32], after := [] }
 def pRef : Param Nat := { a := aNxt, v := .one (.atom (.ref ((StepModel.digitsVal [49] 0 : Nat) : Int))), tok := [35, 49], before := [], after := [32] }
@@ -1001,7 +1009,7 @@ def rec1 : Rec Nat := { ds := [49], s1 := [], s2 := [], n0 := 78, ns := [68], s3
 def rec2 : Rec Nat := { ds := [50], s1 := [32], s2 := [], n0 := 78, ns := [68], s3 := [], ps := [pStr 98, pRef], s4 := [] }
 /-- `\n/* it's (x */ ` -/
 def gap1 : List Nat := [10] ++ 47 :: 42 :: ([32, 105, 116, 39, 115, 32, 40, 120, 32] ++ 42 :: 47 :: [32])
-def rs : List (Rec Nat × List Nat) := [(rec1, gap1), (rec2, [10])]
+def rs : List (Rec Nat × List Nat) := [(rec1, gap1), (rec2, [10]), (rec3, [10])]
 
 theorem seps_gap1 : Seps gap1 := Seps.comment [10] _ [32] (by decide) (by decide) (Seps.blanks [32] (by decide))
 theorem seps_nil : Seps [] := Seps.blanks [] rfl
@@ -1009,6 +1017,7 @@ theorem seps_sp : Seps [32] := Seps.blanks [32] (by decide)
 
 theorem lex1 : rec1.Lex := ⟨by decide, by decide, by decide, seps_nil, seps_nil, seps_nil, seps_nil, by decide, by decide, by decide⟩
 theorem lex2 : rec2.Lex := ⟨by decide, by decide, by decide, seps_sp, seps_nil, seps_nil, seps_nil, by decide, by decide, by decide⟩
+theorem lex3 : rec3.Lex := ⟨by decide, by decide, by decide, seps_nil, seps_nil, seps_nil, seps_nil, by decide, by decide, by decide⟩
 
 theorem sb (c : Nat) (h : isNonQ c = true) : StringBody [c] := StringBody.nonq h StringBody.nil
 
@@ -1030,12 +1039,27 @@ theorem found : refLookup (Mgr.lookup d ({ insts := rs.map (mkInst d) } : Mgr Na
 def env0 (ops : FloatOps Nat) (lx : LexCfg) (cf : RWCfg) : Env Nat :=
   { ops := ops, lex := lx, cfg := cf, dict := d, lookup := Mgr.lookup d ({ insts := rs.map (mkInst d) } : Mgr Nat) }
 
+theorem found2 : refLookup (Mgr.lookup d ({ insts := rs.map (mkInst d) } : Mgr Nat)) "ND" 2 = .found := by decide
+
+theorem cov3 (ops : FloatOps Nat) (lx : LexCfg) (cf : RWCfg) : ∀ q ∈ rec3.ps, Covered (env0 ops lx cf) q := by
+  intro q hq
+  simp only [rec3, List.mem_cons, List.mem_nil_iff, or_false] at hq
+  rcases hq with rfl | rfl
+  · exact Covered.string aLbl rfl rfl rfl [103] (sb 103 (by decide)) [] [] seps_nil seps_nil
+  · refine Covered.aggr aItems (.entity "ND") rfl rfl rfl [el1, el2] [] ?_ seps_nil [] [] seps_nil seps_nil
+    intro e he
+    simp only [List.mem_cons, List.mem_nil_iff, or_false] at he
+    rcases he with rfl | rfl
+    · exact ElemCovered.ref "ND" [49] (by decide) (by decide) (by decide) found [] [] seps_nil seps_nil
+    · exact ElemCovered.ref "ND" [50] (by decide) (by decide) (by decide) found2 [32] [] seps_sp seps_nil
+
 theorem rc (ops : FloatOps Nat) (lx : LexCfg) (cf : RWCfg) : ∀ rg ∈ rs, RecCovered (env0 ops lx cf) rg := by
   intro rg hrg
   simp only [rs, List.mem_cons, List.mem_nil_iff, or_false] at hrg
-  rcases hrg with rfl | rfl
+  rcases hrg with rfl | rfl | rfl
   · exact ⟨lex1, seps_gap1, eND, (by decide : d.entity? rec1.name = some eND), rfl, rfl, cov1 _⟩
   · exact ⟨lex2, Seps.blanks [10] (by decide), eND, (by decide : d.entity? rec2.name = some eND), rfl, rfl, cov2 _ found⟩
+  · exact ⟨lex3, Seps.blanks [10] (by decide), eGRP, (by decide : d.entity? rec3.name = some eGRP), rfl, rfl, cov3 ops lx cf⟩
 
 theorem small_of (l : List Nat) (h : l.all (fun b => decide (b < 256)) = true) : Small l := by
   intro b hb
@@ -1045,7 +1069,7 @@ theorem small_of (l : List Nat) (h : l.all (fun b => decide (b < 256)) = true) :
 theorem lz : ∀ rg ∈ rs, LazySide rg := by
   intro rg hrg
   simp only [rs, List.mem_cons, List.mem_nil_iff, or_false] at hrg
-  rcases hrg with rfl | rfl
+  rcases hrg with rfl | rfl | rfl
   · refine ⟨by decide, by decide, by decide, by decide, by decide, ?_, small_of _ (by decide), small_of _ (by decide)⟩
     intro p hp
     simp only [rec1, List.mem_cons, List.mem_nil_iff, or_false] at hp
@@ -1054,21 +1078,27 @@ theorem lz : ∀ rg ∈ rs, LazySide rg := by
     intro p hp
     simp only [rec2, List.mem_cons, List.mem_nil_iff, or_false] at hp
     rcases hp with rfl | rfl <;> exact small_of _ (by decide)
+  · refine ⟨by decide, by decide, by decide, by decide, by decide, ?_, small_of _ (by decide), small_of _ (by decide)⟩
+    intro p hp
+    simp only [rec3, List.mem_cons, List.mem_nil_iff, or_false] at hp
+    rcases hp with rfl | rfl <;> exact small_of _ (by decide)
 
 end Inst
 
 open Inst in
 /-- the hypotheses of `C10_index_equals_eager_partial` are satisfiable: the file
-    `#1=ND('a', $);\n/* it's (x */ #2 =ND('b',#1 );\nENDSEC; END-ISO-10303-21;` over `ENTITY nd; name : STRING; nxt : OPTIONAL nd;` — a comment
-    with an apostrophe and a parenthesis before `#2`, a reference back — for every floating-point interpretation, either strictness and
-    every reader configuration with the comment repairs -/
+    `#1=ND('a', $);\n/* it's (x */ #2 =ND('b',#1 );\n#3=GRP('g',(#1, #2));\nENDSEC; END-ISO-10303-21;` over
+    `ENTITY nd; name : STRING; nxt : OPTIONAL nd;` and `ENTITY grp; lbl : STRING; items : LIST OF nd;` — a comment with an apostrophe and
+    a parenthesis before `#2`, a reference back, an aggregate of references with layout inside — for every floating-point
+    interpretation, either strictness and every reader configuration with the comment repairs; the offsets the scanner records are
+    those of `C10_materialise_at_recorded_offsets_partial` -/
 theorem C10_index_equals_eager_instance_witness (ops : FloatOps Nat) (lex : LexCfg) (cfg : RWCfg) (strict : Bool)
     (hskip : cfg.skipInstanceSkipsComments = true) (hcri : lex.criSkipsComments = true) (hagg : cfg.aggrSkipsComments = true) :
     ∃ res es,
       readDataSection ops lex cfg d strict false ([] ++ renderRecs rs (RLemmas.endsec [] ([32] ++ (endIso ++ 59 :: [])))) = .ok res ∧
       scan (cs ([] ++ renderRecs rs (RLemmas.endsec [] ([32] ++ (endIso ++ 59 :: []))))) = .ok (es, true) ∧
-      es.map (fun e => ((e.id : Int), String.ofList e.kw)) = [(1, "ND"), (2, "ND")] ∧
-      es.map (·.refs) = [[], [1]] ∧ res.mgr.insts.map instRefs = [[], [1]] := by
+      es.map (fun e => ((e.id : Int), String.ofList e.kw)) = [(1, "ND"), (2, "ND"), (3, "GRP")] ∧
+      es.map (·.refs) = [[], [1], [1, 2]] ∧ res.mgr.insts.map instRefs = [[], [1], [1, 2]] := by
   obtain ⟨res, es, h1, h2, h3, h4, h5, _⟩ := C10_index_equals_eager_partial ops lex cfg d strict hskip hcri hagg rs [] [] [32] []
     seps_nil rfl seps_sp (by decide) (rc ops lex cfg) C10_source_comments_raw lz (small_of _ rfl) (small_of _ rfl)
   refine ⟨res, es, h1, h2, ?_, ?_, ?_⟩
